@@ -248,6 +248,8 @@ impl Iommu {
 
 impl Aml for Iommu {
     fn to_aml_bytes(&self, sink: &mut dyn AmlSink) {
+        // the device length is a 16-bit field
+        assert!(self.len() <= 65535);
         // Type
         sink.byte(RimtDeviceType::Iommu as u8);
         // Revision
@@ -400,6 +402,8 @@ impl PcieRootComplex {
 
 impl Aml for PcieRootComplex {
     fn to_aml_bytes(&self, sink: &mut dyn AmlSink) {
+        // the device length is a 16-bit field
+        assert!(self.len() <= 65535);
         // Type
         sink.byte(RimtDeviceType::PcieRootComplex as u8);
         // Revision
@@ -462,6 +466,8 @@ impl Platform {
 
 impl Aml for Platform {
     fn to_aml_bytes(&self, sink: &mut dyn AmlSink) {
+        // the device length is a 16-bit field
+        assert!(self.len() <= 65535);
         // Type
         sink.byte(RimtDeviceType::Platform as u8);
         // Revision
